@@ -112,7 +112,7 @@ def work(job):
     Q = P.SQLLiteQuery
     env = execb.Env(Q)
     # unwrapped set operations (SQLite does not accept bracketed operands)
-    base = Q._builder(wrap_set_operation_queries=False)
+    base = core.empty_builder(Q, wrap_set_operation_queries=False)
     q, excs = env.run(p["hist"], start=base)
     if any(excs):
         return None
